@@ -135,6 +135,7 @@ def worker(args):
     from lib.findlab import Lab, run_find
     rec = Rec("C11")
     lab = Lab(args.get("seed", 0))
+    lab.p_twins = args.get("p_twins")
     rng = lab.rng
     if "replay" in args:
         c = args["replay"]
